@@ -155,10 +155,21 @@ type advGroup struct {
 func advGroups() []advGroup {
 	tg := func(e *env) *big.Int { return e.tg }
 	m := func(bits int) func(e *env) *big.Int { return func(*env) *big.Int { return xkit.MODPPrime(bits) } }
+	comp := func(e *env) *big.Int {
+		p := new(big.Int).Add(e.tg, big.NewInt(2))
+		for isPrime(p) {
+			p.Add(p, big.NewInt(2))
+		}
+		return p
+	}
 	return []advGroup{
 		{"production-prime", tg, 2}, {"production-prime", tg, 3}, {"production-prime", tg, 4}, {"production-prime", tg, 5},
 		{"production-prime", tg, 6}, {"production-prime", tg, 7}, {"production-prime", tg, 1}, {"production-prime", tg, 8},
 		{"rfc3526-2048", m(2048), 2}, {"rfc3526-2048", m(2048), 5}, {"rfc3526-3072", m(3072), 2}, {"rfc3526-1536", m(1536), 4},
+		// a 2048-bit COMPOSITE that passes the size and residue rules (g = 4 has no residue condition), offered
+		// twice in one process (a reconnect to the same malicious peer): the verdict must not depend on
+		// what was checked before (seeded change C10-r2-1: a process-wide cache of already tested primes)
+		{"composite-2048", comp, 4}, {"composite-2048", comp, 4},
 	}
 }
 
@@ -715,6 +726,9 @@ func main() {
 	var rp runCfg
 	if c.LoadReplay(&rp) {
 		one(rp, byName[rp.Move])
+		if rp.Move == "key-holder-group" {
+			one(rp, byName[rp.Move]) // the same group offered again in this process (history independence)
+		}
 		fmt.Printf("replay: %+v -> distribution %v violations %d\n", rp, c.Obs.Distribution, len(c.Obs.Violations))
 		c.Finish()
 		return
@@ -732,7 +746,7 @@ func main() {
 			case "inner-group-substituted":
 				nv = 4
 			case "key-holder-group":
-				nv = 12
+				nv = 14
 			case "respq-pq-unfactorable":
 				nv = 6
 			case "inner-generator-substituted", "inner-ga-out-of-range":
@@ -754,6 +768,6 @@ func main() {
 			}
 		}
 	}
-	c.Obs.Rule = "one adversary move per exchange, every move of the library once per repetition (1 in quick, 4 in thorough) with a random bit position / the enumerated substituted values (all in thorough, three per run in quick): ResPQ {nonce, server_nonce, fingerprint flips; own RSA key; no fingerprints; pq > 2^63; pq in {0,1,2,3,1000003, largest prime < 2^63}; one pq bit flipped (must not panic or hang); replay}, Server_DH_Params {nonce flips; ciphertext flip / truncation / zeros; answer from a peer without new_nonce; replay; fail message; inner nonce flips; prime substituted by composite, non-safe prime, 2047/2049-bit, small, 0, 2^2047; prime bit flip; a key-holding peer that runs steps 5-8 itself with the production prime and g = 1..8 or an RFC 3526 group (oracle: Euler's criterion); whole group replaced by an RFC 3526 safe prime of 1536 / 2048 / 3072 bits with g = 2 or 4; generator 0,1,8,9,-1 or failing the residue rule; g_a in {0,1,p-1,p,2,2^1984-5,2^1984,p-2^1984,p-2^1984+3,p+12345}}, dh_gen {nonce flips, hash flip / random, retry, fail, replay}, raw bit flips in each server message, bit flips in the encrypted parts of the client's messages; plus two honest baselines; non-trivial = distinct (move, variant, seed)"
+	c.Obs.Rule = "one adversary move per exchange, every move of the library once per repetition (1 in quick, 4 in thorough) with a random bit position / the enumerated substituted values (all in thorough, three per run in quick): ResPQ {nonce, server_nonce, fingerprint flips; own RSA key; no fingerprints; pq > 2^63; pq in {0,1,2,3,1000003, largest prime < 2^63}; one pq bit flipped (must not panic or hang); replay}, Server_DH_Params {nonce flips; ciphertext flip / truncation / zeros; answer from a peer without new_nonce; replay; fail message; inner nonce flips; prime substituted by composite, non-safe prime, 2047/2049-bit, small, 0, 2^2047; prime bit flip; a key-holding peer that runs steps 5-8 itself with the production prime and g = 1..8, an RFC 3526 group, or a 2048-bit composite with g = 4 offered twice in one process (oracle: Euler's criterion); whole group replaced by an RFC 3526 safe prime of 1536 / 2048 / 3072 bits with g = 2 or 4; generator 0,1,8,9,-1 or failing the residue rule; g_a in {0,1,p-1,p,2,2^1984-5,2^1984,p-2^1984,p-2^1984+3,p+12345}}, dh_gen {nonce flips, hash flip / random, retry, fail, replay}, raw bit flips in each server message, bit flips in the encrypted parts of the client's messages; plus two honest baselines; non-trivial = distinct (move, variant, seed)"
 	c.Finish()
 }
